@@ -229,6 +229,38 @@ def instantiation_matrix(rng, quick):
     return out
 
 
+def effect_programs():
+    """(label, generic source, hand-specialised source): one generic function whose body calls an overloaded function — for one
+    type the overload only reads its (value) parameter, for the other it takes a Referenz and changes it. Instantiated with both
+    types in both orders, from a function (argument: a local) and from the top level (argument: a global): the caller's
+    variables are never changed (the generic parameter is a value parameter), whatever the first instantiation looked like."""
+    T = {"Text Liste": ('eine Liste, die aus "a", "b" besteht', '"X"', "Die"), "Zahlen Liste": ("eine Liste, die aus 1, 2, 3 besteht", "99", "Die"),
+         "Text": ('"abc"', "'X'", "Der")}
+    out = []
+    for ro, rw in (("Text Liste", "Zahlen Liste"), ("Zahlen Liste", "Text Liste"), ("Zahlen Liste", "Text"), ("Text", "Zahlen Liste")):
+        for order in ("readonly-first", "mutating-first"):
+            for caller in ("local", "global"):
+                ovl = ('Die Funktion Markiere_A mit dem Parameter l vom Typ %s, gibt eine Zahl zurück, macht:\n\tGib die Länge von l zurück.\nUnd kann so benutzt werden:\n\t"markiere <l>"\n\n'
+                       'Die Funktion Markiere_B mit dem Parameter l vom Typ %s, gibt eine Zahl zurück, macht:\n\tSpeichere %s in l an der Stelle 1.\n\tGib die Länge von l zurück.\n'
+                       'Und kann so benutzt werden:\n\t"markiere <l>"\n\n' % (ro, rw.replace(" Liste", " Listen") + " Referenz", T[rw][1]))
+                gen_ = 'Die generische Funktion Zaehle mit dem Parameter x vom Typ T, gibt eine Zahl zurück, macht:\n\tGib markiere x zurück.\nUnd kann so benutzt werden:\n\t"zähle <x>"\n\n'
+                mono = "".join('Die Funktion Zaehle_%d mit dem Parameter x vom Typ %s, gibt eine Zahl zurück, macht:\n\tGib markiere x zurück.\nUnd kann so benutzt werden:\n\t"zähle <x>"\n\n' % (i, t)
+                               for i, t in enumerate((ro, rw)))
+                decl = ["%s %s a ist %s." % (T[ro][2], ro, T[ro][0]), "%s %s b ist %s." % (T[rw][2], rw, T[rw][0])]
+                calls = ["Schreibe (zähle a) auf eine Zeile.", "Schreibe (zähle b) auf eine Zeile."]
+                if order == "mutating-first":
+                    calls.reverse()
+                shows = ["Schreibe a auf eine Zeile.", "Schreibe b auf eine Zeile.", "Schreibe (zähle b) auf eine Zeile.", "Schreibe b auf eine Zeile."]
+                stmts = decl + calls + shows
+                if caller == "local":
+                    use = "Die Funktion Haupt gibt nichts zurück, macht:\n" + "".join("\t" + x + "\n" for x in stmts) + 'Und kann so benutzt werden:\n\t"haupt"\n\nhaupt.\n'
+                else:
+                    use = "".join(x + "\n" for x in stmts)
+                head = 'Binde "Duden/Ausgabe" ein.\n\n'
+                out.append(("effects:%s/%s:%s:%s" % (ro, rw, order, caller), head + ovl + gen_ + use, head + ovl + mono + use))
+    return out
+
+
 def check(res, tier):
     sd = seed()
     rng = Rng(sd)
@@ -313,6 +345,23 @@ def check(res, tier):
                     r.cls, first, got[first] if 0 <= first < len(got) else None, exp_[first] if 0 <= first < len(exp_) else None),
                     {"program": src, "expected_stdout": want, "implementation": r.as_dict()})
                 break
+    eff = effect_programs()
+    ecfgs = [pipeline.Config(opt=0), pipeline.Config(opt=1), pipeline.Config(opt=2)]
+    eouts = pipeline.farm(ddp, [({"main.ddp": src}, c, {}) for _, g, m in eff for src in (g, m) for c in ecfgs])
+    for k, (name, g, m) in enumerate(eff):
+        rs = eouts[6 * k:6 * k + 6]
+        mono_ref = rs[3]        # the hand-specialised program at -O 0
+        for c, rg, rm in zip(ecfgs, rs[:3], rs[3:]):
+            res.evaluations += 2
+            if rm.cls != "ok" or rm.stdout != mono_ref.stdout:
+                continue        # the specialisation itself is not stable across levels: C11's business, not judged here
+            res.nontrivial(name + ":" + c.name())
+            if rg.cls != rm.cls or rg.stdout != rm.stdout:
+                res.violation(name + ":" + c.name(), "a generic call does not behave like its textual specialisation at -%s (%s): generic %s %r, specialised %r" % (
+                    c.name(), name, rg.cls, rg.stdout[-160:], rm.stdout[-160:]),
+                    {"program": g, "specialised_program": m, "config": c.name(), "implementation": rg.as_dict(), "specialised": rm.as_dict()})
+                break
+    res.extra["effect_programs"] = len(eff)
     mouts = pipeline.farm(ddp, [(files, cfg, {}) for _, files, _ in MODULE_PROGRAMS])
     for (name, files, want), r in zip(MODULE_PROGRAMS, mouts):
         res.evaluations += 1
